@@ -3802,6 +3802,16 @@ impl Machine {
                                                         // self.machine_st.iip, we want trust, not retry.
                                                         // this is true iff ii + 1 < len.
                                                         Some(_) => {
+                                                            // entries of clauses that are dead for this call
+                                                            // may have been skipped: the choice point resumes
+                                                            // after the entry selected now, not after the one
+                                                            // it was parked on.
+                                                            self.machine_st
+                                                                .stack
+                                                                .index_or_frame_mut(b)
+                                                                .prelude
+                                                                .biip = ii;
+
                                                             self.retry(offset);
                                                             increment_call_count!(self.machine_st);
                                                         }
